@@ -52,7 +52,7 @@ def check_seal_is_last(run: Run, am: AstModel, seal: FuncInfo) -> None:
             continue
         kw = {k.arg: k.value for k in call.keywords}
         secs = kw.get("sections")
-        if secs is None or "seal" not in ast.unparse(secs).lower():
+        if secs is None or "seal" not in (ast.unparse(secs) + ast.unparse(expand(secs, _single_defs(seal)))).lower():
             continue  # not the copy that receives the SEAL section
         n += 1
         for f in after_sections:
@@ -74,11 +74,18 @@ def check(run: Run) -> None:
     run.rule("R15.4", "the SEAL section is recognised by one predicate (Section with key SEAL) in removal and extraction; only such sections are removed; the stored HASH assignment is the computed digest", 3)
     run.rule("R15.5", "CLI symmetry: `octave seal` and `octave validate --verify-seal` read the text with the same parser entry and seal/verify the parsed document directly", 2)
 
-    seal = mod.func("seal_document")
+    from ..inline import inline_helpers
+
+    # document-copy helpers extracted from the sealing functions are read in place (octacheck.inline); the sealer's own entry
+    # points are never inlined into each other
+    entry = {"seal_document", "verify_seal", "compute_seal", "_remove_seal_section", "extract_seal"}
+    not_entry = lambda h, c, st: h.name not in entry  # noqa: E731
+    seal, inl1 = inline_helpers(mod.func("seal_document"), not_entry)
     verify = mod.func("verify_seal")
     cs = mod.func("compute_seal")
-    rm = mod.func("_remove_seal_section")
+    rm, inl2 = inline_helpers(mod.func("_remove_seal_section"), not_entry)
     ex = mod.func("extract_seal")
+    run.extra["inlined_helpers"] = sorted(set(inl1 + inl2))
 
     # ---------------------------------------------------------------- R15.1
     cs_defs = _single_defs(cs)
@@ -191,7 +198,7 @@ def check(run: Run) -> None:
                     src = expand(v, _single_defs(fi))
                     # ... directly, or through the local bound from _remove_seal_section(<source doc>) (whatever it is called)
                     stripped = {a.targets[0].id for a in walk_no_nested(fi.node) if isinstance(a, ast.Assign) and len(a.targets) == 1 and isinstance(a.targets[0], ast.Name) and isinstance(a.value, ast.Call) and ast.unparse(a.value.func) == "_remove_seal_section" and a.value.args and is_name(a.value.args[0], pdoc)}
-                    ok = f"{pdoc}.sections" in ast.unparse(src) or any(f"{x}.sections" in ast.unparse(v) or f"{x}.sections" in ast.unparse(src) for x in stripped)
+                    ok = f"{pdoc}.sections" in ast.unparse(src) or f"_remove_seal_section({pdoc}).sections" in ast.unparse(src) or any(f"{x}.sections" in ast.unparse(v) or f"{x}.sections" in ast.unparse(src) for x in stripped)
                 run.instance("R15.3", mod.loc(call), f"{fi.qualname}: Document(... {f}=...) taken from {pdoc}.{f}", ok=ok)
                 if not ok:
                     run.violation("R15.3", mod, fi.qualname, f"Document(...) without {f}", f"the document copy built in {fi.qualname} does not carry `{f}` from the source document: that part of the content is lost by sealing and is not covered by the hash",
